@@ -1410,6 +1410,10 @@ class ComputeGraph(MultiDiGraph):
         # extract common shape
         if lhs.shape == rhs.shape:
             return lhs, rhs
+        if np.size(rhs) == 1:
+            # a right-hand side without any vector-valued operand (e.g. one that simplifies to a constant) applies to
+            # every unit of a vectorized state variable: the assignment broadcasts it
+            return lhs, rhs
         try:
             rhs = rhs.reshape(lhs.shape)
             return lhs, rhs
